@@ -138,6 +138,29 @@ pub fn lane_send(ctx: &mut Ctx) {
             Out::Ok(c) => c.blocks_source,
             _ => continue,
         };
+        // the sync rule does not apply to this endpoint: on regtest (where headers can be mined)
+        // a third of the cases run on a canister that is several announced headers behind
+        if net == Network::Regtest && rng.chance(1, 3) {
+            let g = gen::genesis(net);
+            let mut parent = gen::hash_of(&g);
+            let mut time = g.header.time;
+            let mut next = vec![];
+            for i in 0..rng.range(3, 6) {
+                time += 600;
+                let cb = gen::coinbase_tx(i as u32 + 1, k, vec![(1, vec![0x51])]);
+                let b = gen::make_block(net, parent, time, vec![cb], true);
+                parent = gen::hash_of(&b);
+                next.push(gen::header_bytes(&b.header));
+            }
+            world::set_replies(vec![world::reply_complete(vec![], next)]);
+            for _ in 0..2 {
+                let _ = world::heartbeat();
+            }
+            let behind = world::bookkeeping().next_by_hash.len();
+            if behind >= 3 {
+                ctx.cov.count(if cfg.sync_gate == Flag::Enabled { "c19_cases_not_synced_gate_on" } else { "c19_cases_not_synced_gate_off" });
+            }
+        }
         let mut probes: Vec<Probe> = vec![];
         let tx = random_tx(&mut rng);
         if classify(&tx) != Verdict::WellFormed {
